@@ -54,10 +54,12 @@ def isSpanOf (F : List Hit) (o : Hit) : Bool :=
   && F.any (fun f => f.qs == o.qs) && F.any (fun f => f.qe == o.qe)
   && F.any (fun f => f.ev == o.ev) && F.any (fun f => f.sc == o.sc)
 
-/-- close enough to be one domain: every fragment after the first (in position order) ends less
-    than 1.5 profile lengths after the merged start -/
+/-- close enough to be one domain: the first fragment starts the merged hit and every other
+    fragment ends less than 1.5 profile lengths after that start -/
 def closeEnough (env : Env) (F : List Hit) (o : Hit) : Bool :=
-  F.tail.all fun f => decide (2 * (f.qe - o.qs) < 3 * env.len o.prof)
+  match F with
+  | [] => false
+  | f₀ :: rest => f₀.qs == o.qs && rest.all fun f => decide (2 * (f.qe - o.qs) < 3 * env.len o.prof)
 
 def isMergeOf (env : Env) (F : List Hit) (o : Hit) : Bool := isSpanOf F o && closeEnough env F o
 
@@ -69,6 +71,13 @@ def provenanceOK (env : Env) (input : List Hit) (o : Hit) : Bool :=
 
 def allProvenanceOK (env : Env) (input out : List Hit) : Bool := out.all (provenanceOK env input)
 
+/-! ### merging loses nothing: every fragment is inside a hit of its profile that carries at
+        least its score and at most its e-value -/
+def covers (m x : Hit) : Bool :=
+  m.prof == x.prof && decide (m.qs ≤ x.qs) && decide (x.qe ≤ m.qe) && decide (x.sc ≤ m.sc) && decide (m.ev ≤ x.ev)
+
+def allCovered (input out : List Hit) : Bool := input.all fun x => out.any fun m => covers m x
+
 /-! ### "a hit is dropped only if a better-ranked overlapping hit is kept" (overlap stage) -/
 
 /-- `k` outranks `d`: higher score, or the same score (the earlier one wins ties, which the
@@ -78,6 +87,16 @@ def outranks (k d : Hit) : Bool := decide (d.sc ≤ k.sc)
 /-- the two hits collide in the sense of `startsClear` (earlier-starting one first) -/
 def collide (env : Env) (a b : Hit) : Bool :=
   if a.qs ≤ b.qs then !startsClear env a b || (a.qs == b.qs && !startsClear env b a) else !startsClear env b a
+
+/-- what is true of the greedy pass for every input: a dropped hit lost against a hit that
+    collided with it and outranked it (`beats`), which either is returned or lost in the same way
+    against another one, … , ending in a returned hit -/
+def beats (env : Env) (k d : Hit) : Bool :=
+  (!startsClear env k d && decide (d.sc ≤ k.sc)) || (!startsClear env d k && decide (d.sc < k.sc))
+
+inductive Dominated (env : Env) : Hit → Hit → Prop
+  | step {d k : Hit} : beats env k d = true → Dominated env d k
+  | trans {d m k : Hit} : beats env m d = true → Dominated env m k → Dominated env d k
 
 def droppedJustified (env : Env) (input out : List Hit) : Bool :=
   input.all fun d => out.contains d || out.any fun k => collide env k d && outranks k d
